@@ -13,7 +13,7 @@ from vlib.workload import case_rng, per_shard
 ID = "C16"
 LEVEL = "exploration"
 RULE = ("operation sequences over {insert fresh key, lookup ([] and get(default) alternating)} with keys from the closed family "
-        "3 base classes x {itself, NewType, TypeAliasType, string-valued alias, Final[...], ForwardRef to it}: all sequences up to "
+        "3 base classes x {itself, NewType, TypeAliasType, string-valued alias, Final[...], ForwardRef to it, ForwardRef with the same name in another module}: all sequences up to "
         "the tier's length over one base (exhaustive), random sequences up to length 40 over all 18 keys; after every sequence a "
         "full probe of all keys ([] / get / in for stored keys) is compared with the write-once reference model; one evaluation = "
         "one sequence; distinct = distinct sequence; non-trivial = contains at least one insert and one lookup")
@@ -22,8 +22,8 @@ ASSUMPTIONS = [
     "'in' is only compared for stored keys (memoised alias keys are deliberately not observed)",
 ]
 EXHAUSTIVE = {"quick": True, "thorough": True}
-PLAN = {"quick": dict(maxlen=5, random=20000), "thorough": dict(maxlen=6, random=600000)}
-FLOORS = {"quick": {"sequences": 250000, "ops_compared": 3000000, "hits_via_peel": 100000, "hits_via_forwardref": 20000, "keyerrors": 500000},
+PLAN = {"quick": dict(maxlen=4, random=60000), "thorough": dict(maxlen=6, random=600000)}
+FLOORS = {"quick": {"sequences": 90000, "ops_compared": 1500000, "hits_via_peel": 50000, "hits_via_forwardref": 10000, "keyerrors": 300000},
           "thorough": {"sequences": 3000000, "ops_compared": 40000000, "hits_via_peel": 1000000, "hits_via_forwardref": 300000, "keyerrors": 5000000}}
 
 SRC = """
@@ -36,6 +36,7 @@ A0 = typing.TypeAliasType("A0", B0); A1 = typing.TypeAliasType("A1", B1); A2 = t
 S0 = typing.TypeAliasType("S0", "B0"); S1 = typing.TypeAliasType("S1", "B1"); S2 = typing.TypeAliasType("S2", "B2")
 F0 = typing.Final[B0]; F1 = typing.Final[B1]; F2 = typing.Final[B2]
 R0 = typing.ForwardRef("B0", module=__name__); R1 = typing.ForwardRef("B1", module=__name__); R2 = typing.ForwardRef("B2", module=__name__)
+X0 = typing.ForwardRef("B0", module="some_other_module"); X1 = typing.ForwardRef("B1", module="some_other_module"); X2 = typing.ForwardRef("B2", module="some_other_module")
 """
 MODNAME = "vctx_family"
 _MISSING = object()
@@ -58,6 +59,7 @@ def family():
             "S": (getattr(mod, f"S{b}"), fr, None),    # string alias peels to the ForwardRef to its body
             "F": (getattr(mod, f"F{b}"), B, None),
             "R": (fr, None, None),                     # a ForwardRef key never falls through
+            "X": (getattr(mod, f"X{b}"), None, None),  # same name, ANOTHER module: names nothing in this family
         }
     return keys
 
